@@ -115,7 +115,7 @@ func solveOne(ctxc *Ctx, o *Obligation, cfg solveCfg, idx int) {
 		timeout = 2
 	}
 	type ans struct{ solver, res, out string }
-	ch := make(chan ans, len(solvers))
+	ch := make(chan ans, len(solvers)+4)
 	ctx, cancel := context.WithCancel(context.Background())
 	defer cancel()
 	for _, s := range solvers {
@@ -125,11 +125,34 @@ func solveOne(ctxc *Ctx, o *Obligation, cfg solveCfg, idx int) {
 			ch <- ans{s.name, r, out}
 		}()
 	}
+	// second stage of the portfolio: quantifier instantiation is sensitive to the search order, so an obligation that is
+	// still open after a few seconds is also given to z3 with other (fixed) random seeds. Deterministic: same query, same seeds.
+	nExtra := 0
+	if !o.ExpectSat && timeout > 8 {
+		for _, sd := range []int{3, 5, 11} {
+			sd := sd
+			nExtra++
+			go func() {
+				select {
+				case <-ctx.Done():
+					ch <- ans{fmt.Sprintf("z3-new(seed %d)", sd), "cancelled", ""}
+				case <-time.After(4 * time.Second):
+					sp := solverSpec{fmt.Sprintf("z3-new(seed %d)", sd), func(f string, t int) []string {
+						return []string{"z3-new", fmt.Sprintf("-T:%d", t), fmt.Sprintf("smt.random_seed=%d", sd), fmt.Sprintf("sat.random_seed=%d", sd), f}
+					}}
+					r, out := runSolver(ctx, sp, file, timeout-4)
+					ch <- ans{sp.name, r, out}
+				}
+			}()
+		}
+	}
 	o.Answers = map[string]string{}
 	definite := ""
-	for i := 0; i < len(solvers); i++ {
+	for i := 0; i < len(solvers)+nExtra; i++ {
 		a := <-ch
-		o.Answers[a.solver] = a.res
+		if a.res != "cancelled" {
+			o.Answers[a.solver] = a.res
+		}
 		if a.res == "error" {
 			o.Output += a.solver + ": " + trunc(a.out, 300) + "\n"
 		}
